@@ -108,6 +108,7 @@ type r2sibOpts struct {
 	CallArgs      bool            // the key of a recorded call names its first argument's term
 	InlineDescent *regexp.Regexp  // descents (qualified name) that are re-rooted like helpers
 	Only          map[string]bool // when set: only events of these kinds are recorded
+	InlineOnly    *regexp.Regexp  // when set: only callees with a matching qualified name are re-rooted (helpers and walkers alike)
 	// Relevant, when set, prunes the walked region: compound statements that contain no relevant node and no
 	// return / break / continue / panic are skipped (they cannot change which events a path passes)
 	Relevant func(n ast.Node) bool
@@ -517,9 +518,12 @@ func (k *r2sibCollector) call(st *r2sibState, x *ast.CallExpr, clause r2sibClaus
 	qn := r2sibQualName(callee)
 	if k.opts.Calls != nil && k.opts.Calls.MatchString(qn) {
 		key := "call " + qn
-		attrs := map[string]string{"callee": qn}
+		attrs := map[string]string{"callee": qn, "callterm": f.norm(x)}
 		if len(x.Args) > 0 {
 			attrs["term"] = f.norm(x.Args[0])
+		}
+		if len(x.Args) > 1 {
+			attrs["arg1"] = f.norm(x.Args[1])
 		}
 		if k.opts.CallArgs && len(x.Args) > 0 {
 			key += "(" + attrs["term"] + ")"
@@ -532,6 +536,12 @@ func (k *r2sibCollector) call(st *r2sibState, x *ast.CallExpr, clause r2sibClaus
 		k.record("descent", "descent "+qn+"("+t+")", map[string]string{"callee": qn, "term": t}, x.Pos(), "", x, clause)
 	}
 	if isDescent && k.opts.InlineDescent != nil && k.opts.InlineDescent.MatchString(qn) {
+		isDescent = false
+	}
+	if k.opts.InlineOnly != nil {
+		if !k.opts.InlineOnly.MatchString(qn) {
+			return
+		}
 		isDescent = false
 	}
 	// helper with a summary: re-root its events here
@@ -584,7 +594,7 @@ func (e *r2sibEngine) summary(fn *types.Func, opts r2sibOpts, depth int) *r2sibS
 	if fd == nil {
 		return nil
 	}
-	key := fmt.Sprintf("%p|%v|%v|%v|%v|%v|%v|%v", fn, opts.Calls, opts.Returns, opts.Stores, opts.Descents, opts.CallArgs, opts.InlineDescent, opts.Only)
+	key := fmt.Sprintf("%p|%v|%v|%v|%v|%v|%v|%v|%v", fn, opts.Calls, opts.Returns, opts.Stores, opts.Descents, opts.CallArgs, opts.InlineDescent, opts.Only, opts.InlineOnly)
 	if s, ok := e.sums[key]; ok {
 		return s
 	}
